@@ -824,6 +824,12 @@ def oob_programs():
     text = ('class Main {\n  function main(): unit = {\n    let v = Vec.empty<int>();\n    v.push(1);\n    Process.println(Str.fromInt(v.pop()));\n'
             '    Process.println("before");\n    Process.println(Str.fromInt(v.pop()));\n    Process.println("after");\n  }\n}\n')
     out.append({'sources': {'Main': text}, 'entry': 'Main', 'features': ['oob:pop-empty']})
+    # negative and boundary int elements read back through get / pop (not a trap: values of the 31-bit boxing range)
+    text = ('class Main {\n  function main(): unit = {\n    let z = "0".toInt();\n    let v = Vec.of(z - 5);\n    v.push(z - 1);\n    v.push(z - 1073741824);\n'
+            '    v.push(z + 1073741823);\n    v.set(z + 0, z - 7);\n    Process.println(Str.fromInt(v.get(z + 0)));\n    Process.println(Str.fromInt(v.get(z + 1)));\n'
+            '    Process.println(Str.fromInt(v.get(z + 2)));\n    Process.println(Str.fromInt(v.pop()));\n    Process.println(Str.fromInt(v.pop()));\n'
+            '    Process.println(Str.fromInt(v.pop() + v.length()));\n  }\n}\n')
+    out.append({'sources': {'Main': text}, 'entry': 'Main', 'features': ['vec:negative-and-boundary-elements']})
     return out
 
 
@@ -831,6 +837,7 @@ INFER_PRELUDE = '''class Opt<T>(Non, Som(T)) {
   method <R> map(f: (T) -> R): Opt<R> = match this { Non -> Opt.Non(), Som(v) -> Opt.Som(f(v)) }
   method <R> bind(f: (T) -> Opt<R>): Opt<R> = match this { Non -> Opt.Non(), Som(v) -> f(v) }
   method orElse(d: T): T = match this { Som(v) -> v, Non -> d }
+  method size(): int = match this { Som(_) -> 1, Non -> 0 }
 }
 class Pr<A, B>(val fst: A, val snd: B) {}
 class Bx2<T>(val v: T) {
@@ -847,6 +854,7 @@ class Me(val a: int) {
   method pick(b: bool): Me = if b { this } else { Me.init(1) }
   method wrap(): Opt<Me> = Opt.Som(this)
   method other(o: Me): Me = if o.a > this.a { o } else { this }
+  method count(n: int, acc: int): int = if n == 0 { acc + this.a } else { this.count(n - 1, acc + n) }
 }
 interface Sh0 { method sh(k: int): int }
 class Sa0(val a: int) : Sh0 { method sh(k: int): int = this.a + k }
@@ -892,6 +900,8 @@ INFER_TEMPLATES = [
     '{ let @x = Me.init(@k).pick; @x(true).a + @x(false).a }',
     '{ let @x = Me.init(@k).wrap; match @x() { Som(@y) -> @y.a, Non -> 0 } }',
     '{ let @x = Me.init(@k).other; @x(Me.init(@j)).a }',
+    # a TAIL-RECURSIVE method taken as a function value (its receiver parameter is renamed by the tail recursion rewrite)
+    '{ let @x = Me.init(@k).count; @x(@j, 0) + Me.init(@j).count(3, 1) }',
     # callers whose type parameter is spelled like the called method's own (`<R>` calling Opt<R>.map<R>)
     'Main.mapSame(Opt.Som(@k), (@x) -> @x + @j).orElse(0) + Main.mapOne(Opt.Som("s")).orElse(@j)',
     'Main.mapBox(Opt.Som(@k)).orElse(Opt.Non()).orElse(@j)',
@@ -969,6 +979,9 @@ class Pr2(val a: int, val b: int) {}
 
 
 INFER_VIOLATIONS = [
+    # an argument whose own type is closed but which hides an undecidable type argument inside
+    ('underconstrained-inside-argument', 'Main.twice((@x) -> @x + 1, Opt.Non().size())'),
+    ('underconstrained-inside-argument', 'Main.app((@x: int) -> @x, { let @y = 1; Opt.Non().size() + @y })'),
     ('field-access-on-class-name', 'Ed.w + @k'),
     ('field-access-on-class-name', 'Pr.fst + @k'),
     ('bound-violation-solved-from-hint', '{ let @x: (Nb0) -> int = Main.useSh0; @x(Nb0.init(@k)) }'),
@@ -1038,6 +1051,15 @@ def infer_violation_programs(rng):
                 'class BoxB<A>(val a: A) { method <T: Nd> cmpB(x: T): int = 0 }\n']:
         text = (INFER_PRELUDE + cls + 'class Main {\n' + INFER_HELPERS + '  function main(): unit = Process.println("x")\n}\n')
         out.append(('invalid-bound-of-member-type-parameter', {'sources': {'Main': text}, 'entry': 'Main', 'mutated': 'Main'}))
+    # the same generic interface reached at two instantiations (directly and through a diamond); the method fits only one
+    for cls in ['interface BaseG<T> { method get(): T }\ninterface GA : BaseG<int> {}\ninterface GB : BaseG<Str> {}\n'
+                'class CG(val v: int) : GA, GB { method get(): int = this.v }\n',
+                'interface BaseG<T> { method get(): T }\ninterface GA : BaseG<int> {}\ninterface GB : BaseG<Str> {}\n'
+                'class CG(val v: int) : GB, GA { method get(): int = this.v }\n',
+                'interface BaseG<T> { method get(): T }\nclass CG(val v: int) : BaseG<int>, BaseG<Str> { method get(): int = this.v }\n']:
+        text = (INFER_PRELUDE + cls + 'class Main {\n' + INFER_HELPERS + '  function <T: BaseG<Str>> showG(t: T): Str = t.get()\n'
+                '  function main(): unit = Process.println(Main.showG(CG.init(3)))\n}\n')
+        out.append(('method-conformance-second-instantiation', {'sources': {'Main': text}, 'entry': 'Main', 'mutated': 'Main'}))
     # a class implementing two unrelated interfaces that declare the same method with different signatures
     for a, b in (('int', 'Str'), ('Str', 'int')):
         cls = ('interface SzA { method measure(): %s }\ninterface SzB { method measure(): %s }\n'
